@@ -37,7 +37,10 @@ from exabgp.reactor.network.outgoing import Outgoing
 # This is the number of chuncked message we are willing to buffer, not the number of routes
 MAX_BACKLOG = 15000
 
-_UPDATE = UpdateCollection([], [], AttributeCollection())
+# returned by read_message() for an UPDATE nobody wants decoded (no adj-rib-in, API or route logging):
+# an Update message whose content is empty - the handlers expect Update.data, not a bare UpdateCollection
+_UPDATE = Update(b'\x00\x00\x00\x00')
+_UPDATE._parsed = UpdateCollection([], [], AttributeCollection())
 _OPERATIONAL = Operational(0x00)
 
 
